@@ -23,6 +23,7 @@ import (
 	"sort"
 	"strconv"
 	"strings"
+	"time"
 
 	"github.com/deckhouse/deckhouse/pkg/log"
 
@@ -78,7 +79,8 @@ type PlaceObs struct {
 	Nodes   []PNode     `json:"nodes"`
 	Parents [][2]int    `json:"parents"` // directory -> parent
 	Hooks   []PlaceHook `json:"hooks"`
-	Via     string      `json:"via,omitempty"` // manager: hook.Manager.Init loaded the hooks; direct: see runPlace
+	Via     string      `json:"via,omitempty"`      // manager: hook.Manager.Init loaded the hooks; direct: see runPlace
+	InitErr string      `json:"init_err,omitempty"` // why Manager.Init gave up (for the reader; not compared)
 	Note    string      `json:"note,omitempty"`
 }
 
@@ -266,6 +268,7 @@ func runPlace(in Input) *PlaceObs {
 		}
 	} else {
 		o.Via = "direct"
+		o.InitErr = strings.ReplaceAll(err.Error(), base, "")
 		paths, err := utils_file.RecursiveGetExecutablePaths(root)
 		if err != nil {
 			return o // no hooks root: nothing is run
@@ -288,6 +291,12 @@ func runPlace(in Input) *PlaceObs {
 		rep := filepath.Join(repDir, fmt.Sprintf("r%d", k))
 		os.Setenv("VERIF_C12_REPORT", rep)
 		_, rerr := h.Run(htypes.OnStartup, []bctx.BindingContext{}, map[string]string{})
+		// ETXTBSY: some other goroutine of this process forked while a script of the case was open for writing
+		// (the well-known fork/exec race of multi-threaded programs); that is not an answer, ask again
+		for try := 0; try < 5 && rerr != nil && strings.Contains(rerr.Error(), "text file busy"); try++ {
+			time.Sleep(time.Millisecond)
+			_, rerr = h.Run(htypes.OnStartup, []bctx.BindingContext{}, map[string]string{})
+		}
 		ph := PlaceHook{Rel: filepath.ToSlash(name), Settings: -1, Cwd: 999, Failed: rerr != nil, TmpAfter: countFiles(tmpDir), EntryDir: sc.dirNumber(filepath.Dir(p))}
 		if rerr != nil {
 			ph.Err = strings.ReplaceAll(rerr.Error(), base, "")
@@ -513,7 +522,9 @@ func (b *treeB) link(rel, target string, abs bool) {
 	}
 	b.parts = append(b.parts, fmt.Sprintf("l %s %s", b.p(rel), filepath.ToSlash(t)))
 }
-func (b *treeB) rawLink(rel, text string) { b.parts = append(b.parts, fmt.Sprintf("l %s %s", b.p(rel), text)) }
+func (b *treeB) rawLink(rel, text string) {
+	b.parts = append(b.parts, fmt.Sprintf("l %s %s", b.p(rel), text))
+}
 
 func (b *treeB) input(layout string) Input {
 	in := emptyInput()
@@ -567,6 +578,12 @@ func placeSystematic() []Input {
 					b.rawLink("hooks/010-a/hook.sh", "other")
 					b.rawLink("hooks/010-a/other", "hook.sh")
 				})
+				if !through {
+					// the hooks root itself a link to a directory: filepath.Walk does not descend, no hook is found
+					// (hook loading, not the execution contract: recorded so that the evidence shows it, nothing is run)
+					ins = append(ins, Input{Metrics: "empty", Patch: "empty", Admission: "empty", Conversion: "empty",
+						Parts: []string{"f real-hooks/010-a/hook.sh 1 x", "l hooks real-hooks"}, Place: &PlaceCfg{Root: "hooks", Layout: "root-is-link"}})
+				}
 				mk("dir-link-in-tree", func(b *treeB) { // filepath.Walk takes a link to a directory for a file
 					b.file("shared/hooks-x/hook.sh", true)
 					b.link("hooks/050-d", "shared/hooks-x", false)
@@ -692,4 +709,69 @@ func genPlaceCase(r *core.Rng) Input {
 		}
 	}
 	return b.input("random")
+}
+
+// small scope, exhaustive: hooks root plain / through a link x depth of the hook directory (the root itself,
+// one, two levels) x what the entry is (regular, link to: the same directory, a sibling hook directory, lib,
+// outside, outside through a link to a directory, a chain of two, a chain of three) x relative / absolute
+// target x ./settings of the own directory (none, regular, a link to another file) x settings beside the
+// target (none, regular)
+func placeExhaustive() []Input {
+	var ins []Input
+	hookDirs := []string{"hooks", "hooks/010-a", "hooks/030-c/sub"}
+	entries := []string{"regular", "same-dir", "sibling", "lib", "outside", "via-dir-link", "chain2", "chain3"}
+	for _, through := range []bool{false, true} {
+		for _, hd := range hookDirs {
+			for _, e := range entries {
+				for _, abs := range []bool{false, true} {
+					if e == "regular" && abs {
+						continue
+					}
+					for own := 0; own < 3; own++ {
+						for tset := 0; tset < 2; tset++ {
+							b := newTree(through)
+							b.file("misc/other-settings", false)
+							td := map[string]string{"regular": hd, "same-dir": hd, "sibling": "hooks/020-b", "lib": "hooks/lib",
+								"outside": "shared", "via-dir-link": "opt/scripts", "chain2": "opt/scripts", "chain3": "opt/scripts"}[e]
+							switch e {
+							case "regular":
+								b.file(hd+"/hook.sh", true)
+							case "same-dir":
+								b.file(hd+"/.impl.sh", true)
+								b.link(hd+"/hook.sh", hd+"/.impl.sh", abs)
+							case "via-dir-link":
+								b.file(td+"/real.sh", true)
+								b.link("current", td, !abs)
+								b.link(hd+"/hook.sh", "current/real.sh", abs)
+							case "chain2", "chain3":
+								b.file(td+"/real.sh", true)
+								b.link("shared/step", td+"/real.sh", !abs)
+								b.settings("shared")
+								if e == "chain3" {
+									b.link("hooks/lib/step0", "shared/step", abs)
+									b.link(hd+"/hook.sh", "hooks/lib/step0", abs)
+								} else {
+									b.link(hd+"/hook.sh", "shared/step", abs)
+								}
+							default:
+								b.file(td+"/impl.sh", true)
+								b.link(hd+"/hook.sh", td+"/impl.sh", abs)
+							}
+							if tset == 1 && td != hd {
+								b.settings(td)
+							}
+							switch own {
+							case 1:
+								b.settings(hd)
+							case 2:
+								b.link(hd+"/settings", "misc/other-settings", abs)
+							}
+							ins = append(ins, b.input("x-"+e))
+						}
+					}
+				}
+			}
+		}
+	}
+	return ins
 }
